@@ -129,6 +129,81 @@ CHECKS.update({
                 note=TB + "libm is outside the model. Long-tail property with many recorded findings (fp lacks some functions, conjugate branches outside real domains, libm accuracy at huge arguments)."),
 })
 
+TB_CALC = ("Trusted base: Lean 4.33 kernel; axioms propext/Classical.choice/Quot.sound only (audited on every run); Mathlib v4.33; the verified "
+           "interval evaluator Mp.Encl (soundness theorems against Mathlib's real functions); the Python transcription of each integrand / summand "
+           "/ right-hand side from the family description (cross-checked exactly against the Lean term function for series); the Python harness. ")
+
+CHECKS_CALC = {
+    "C26": dict(category="translation_validation",
+                technique="closed-form references proved in Lean (FTC with antiderivative differentiated in Lean, Gamma(n+1)=n!, Gaussian integral, separable iterated integrals) "
+                          "+ Lean-verified enclosure/comparison checker + proved driver logic (limit reversal, split points, node cache) + sampled runs of quad/quadts/quadgl",
+                text="Theorems: for every member of the integrand families (polynomials, exp(cx), sin/cos(cx), x exp(cx), exp(ax)cos/sin(bx), 1/(1+x^2), 1/(x+c); products in 2-3 dimensions; "
+                     "x^n e^-x, e^-cx, Gaussians on infinite ranges) the closed form equals the integral; a verdict of the checker is a theorem |y - I| < 2^(10-p) max(|I|,1) or its negation; "
+                     "the summation driver over an additive rule negates under reversal and is invariant under split points. The real routines are run on generated members "
+                     "(forward/reversed/split, 1-3 dimensions, infinite ranges, precisions 30-500) and each output, read exactly, is decided.",
+                note=TB_CALC + "The quantifier over integrands is sampled; no theorem about convergence of tanh-sinh / Gauss-Legendre; complex paths not covered."),
+    "C27": dict(category="translation_validation",
+                technique="closed-form sums/products/limits proved in Lean (geometric, zeta(2), zeta(4), exp/sin/cos/log series, Leibniz, telescoping, Euler limit) + Lean-verified checker "
+                          "+ proofs of nsum's index standardisation, shell folding, finite folding, and exactness of the rational model of richardson + sampled runs",
+                text="Theorems: partial sums/products of every family tend to the closed form; finite ranges equal the exact rational sum; the standardised ranges enumerate exactly the original "
+                     "index set; richardson returns L exactly on L + sum c_j/k^j; checker verdict = |y - S| <= 2^(10-p)|S|. nsum (all methods on the series shapes they are documented for, "
+                     "1-3 dimensions, finite/half-infinite/doubly infinite ranges), nprod, limit, sumem, sumap are run and decided; mp.richardson is compared with the exact model.",
+                note=TB_CALC + "Sampled; acceleration methods are only requested where mpmath documents them; levin/cohen_alt/shanks tables are not modelled."),
+    "C28": dict(category="translation_validation",
+                technique="n-th derivatives of the families proved in Lean (iteratedDeriv), exact rational Pade validator proved against polynomial coefficients, differint closed form, "
+                          "difference = n-th forward difference (proved, bit-exact T1) + sampled runs of diff/diffs/diffun/taylor/pade/differint",
+                text="Theorems: iteratedDeriv n f x equals the closed form for polynomials, exp(cx), sin(cx), cos(cx), x exp(cx); partial derivatives of separable products; padeCheck accepts iff the "
+                     "coefficients of A*Q-P up to degree L+M are within tolerance (exact version: X^(L+M+1) divides A*Q-P); difference(s,n) = sum (-1)^(n-k) C(n,k) s_k. "
+                     "Outputs of the real routines (all options, orders 0-10, precisions 30-300) are decided by the Lean checker.",
+                note=TB_CALC + "Sampled; differint only for integer orders n >= 0 and n = -1."),
+    "C34": dict(category="translation_validation",
+                technique="exact solutions proved in Lean (satisfy the ODE and initial condition; uniqueness by Gronwall) + proofs about the model of odefun's segment store "
+                          "(prefix property, unique segment off boundaries, termination, VALUE independence of history; segment choice at boundaries refuted) + sampled runs with closure inspection",
+                text="Theorems: solRef denotes THE solution of y'=ay, the harmonic oscillator and y'=-y^2; the store after any query history is a prefix of one fixed segment sequence; the interpolant "
+                     "value is history independent given exact continuity at the knots (which the code has: ser[0] = y0), although the answering segment at a boundary point is history dependent "
+                     "(counterexample). odefun is run with random query orders, exact boundary points, repeats and caller-precision changes; values must be bit-identical across histories and "
+                     "within 2^10*tol of the exact solution.",
+                note=TB_CALC + "Sampled; ode_taylor is abstract in the model."),
+    "C36": dict(category="translation_validation",
+                technique="Lean-verified comparison checkers (coefficient-norm bound of the sup distance of two polynomials, scaled closeness, fourierval's defining sum with verified cos/sin/pi enclosures) + sampled runs",
+                text="Theorems: sum|d_j-c_j|M^j bounds |fit(x)-P(x)| on [-M,M]; fourierRef is the defining sum of fourierval; checker verdicts are theorems. chebyfit of polynomials of degree < N "
+                     "(reproduction, reported error), chebyfit error bound at the code's rational sample point x=b, fourier of planted trigonometric polynomials, fourierval on dyadic data are decided.",
+                note=TB_CALC + "Sampled; orthogonality (that planted coefficients are the Fourier coefficients) is the property's premise and is not proved; cases where the coefficient-norm bound is "
+                     "inconclusive are counted as undecided after 9 exact sample points."),
+}
+
+CHECKS.update(CHECKS_CALC)
+
+CHECKS.update({
+    "C18": dict(category="translation_validation", technique="closed-form references proved in Lean against Mathlib's Real.Gamma / factorial / Pochhammer / harmonic + Lean-verified comparison checker + model of gammaprod's pole bookkeeping (bit-exact) + sampled runs",
+                text="Theorems: the references denote Gamma(h/2) (pole iff h/2 is a non-positive integer; 1/Gamma exactly 0 there), log Gamma for positive half-integers, x!, n!!, binomial = descPochhammer/k! (= Nat.choose at naturals), rf/ff, "
+                     "beta and gammaprod as products of Real.Gamma, harmonic, superfactorial; gammaprod's zero/infinite/finite decision equals the pole count of Real.Gamma; a checker verdict is a theorem |y - ref| <= 2^(k-p)|ref| or its negation. "
+                     "The real functions are run at half-integer/integer/rational arguments (precisions 10-2000, real and complex-typed) and each output, read exactly, is decided.",
+                note=TB + "Only the sub-family with closed forms in Mathlib is decided (generic real/complex arguments, digamma/polygamma are counted as outside); the series code of mpf_gamma is not modelled."),
+    "C19": dict(category="translation_validation", technique="closed-form references proved in Lean against Mathlib's riemannZeta / bernoulli polynomials / HasSum of the defining series + Lean-verified checker + sampled runs",
+                text="Theorems: the reference equals riemannZeta s for s <= 0 and even s >= 2 (pole iff s = 1), HasSum of the Hurwitz series at even exponents and integer a >= 1, Polynomial.bernoulli at the point, HasSum of the polylog series "
+                     "for s = 1, s = -n (|z| < 1) and s = 2m at z = 1. zeta/altzeta/hurwitz/bernpoly/eulerpoly/polylog are run on these arguments and decided exactly.",
+                note=TB + "Odd and non-integer s, polylog outside |z| < 1, lerchphi, primezeta, zeta derivatives are outside the decided sub-family (counted)."),
+    "C22": dict(category="translation_validation", technique="terminating hypergeometric sums and orthogonal-polynomial recurrences as exact rational references proved in Lean (Chebyshev against Mathlib) + models of hypsum's pole test and parameter classification (bit-exact) + verified checker",
+                text="Theorems: for a terminating pFq the finite Pochhammer sum is the value and a pole occurs iff a denominator parameter -m has m < n; chebyt/chebyu = Mathlib's Chebyshev T/U; legendre/hermite/laguerre/gegenbauer/jacobi equal their "
+                     "three-term recurrences; hypsum raises exactly when an integer denominator c <= 0 exceeds every integer numerator cc <= 0; convert_param's Z/Q/R/C classification. hyper/hyp2f1/hyp1f1/hyp2f0 and the polynomial families are run on terminating "
+                     "cases and decided exactly.",
+                note=TB + "Non-terminating series (the bulk of the property's quantifier) are not decided: no verified evaluator for 2F1 etc. exists in Mathlib."),
+    "C35": dict(category="translation_validation", technique="Lean-verified acceptance checkers for integer relations (ok => the documented promise over the reals, violates => its negation) applied to every result the real pslq/findpoly/identify return",
+                text="Theorems: pslqCheck ok implies a non-zero integer vector with max|c_k| < maxcoeff and |sum c_k x_k| <= tol*||x||_2; violates refutes it; same for findpoly with exact powers of x. identify's formulas are parsed and evaluated with the verified "
+                     "interval evaluator. No claim that PSLQ finds relations (completeness is reported as information).",
+                note=TB + "identify's promise is only 'roughly within the tolerance' in the documentation: decided at 2^10*tol; formulas outside the small grammar are undecided."),
+    "C37": dict(category="proof", technique="Lean theorems that every pure-Python substitute of a GMP routine meets the documented GMP specification (bit length, lowest set bit, isqrt/sqrtrem, factorial, normalize) + AST site table regenerated per run + bit-exact correspondence",
+                text="Theorems: python_bitcount = bit length (unconditionally below 2^299, above under the stated float hypothesis which is validated on every case), python_trailing = lowest set bit for every n (256-entry table by kernel decision + byte loop), "
+                     "isqrt_small/sqrtrem/ifac/mpf_mul/mpf_mul_int/normalize/normalize1/from_man_exp variants equal their specification. Every site where BACKEND == 'gmpy' substitutes an implementation is enumerated from the AST on each run and compared with a baseline.",
+                note=TB + "gmpy2 is not installed and cannot be: the two backends are never run against each other, so the property's own claim (bit-identical across backends) is decided only up to GMP's documentation; isqrt_fast and two algorithm cut-offs are listed as not covered."),
+    "C38": dict(category="proof", technique="Lean frame theorems over a world model of contexts (one settings cell per context, shared caches) + state-by-state correspondence of every context's settings on random interleavings + value comparison with a pristine process",
+                text="Theorems: a statement on context i leaves every field of every other context unchanged (single steps and programs); clone() creates a fresh cell with the parent's precision and writes no existing cell; evaluations write no cell and read only "
+                     "their own cell and the caches; changing settings never touches the caches; the clone returns the parent's values when the shared caches are precision-correct (discharged from C33's constant_memo refinement). "
+                     "Live objects (mp, clones, iv, fp) are scanned for shared mutable state and driven through random programs with every setting compared after every statement.",
+                note=TB + "That the running objects have the shape of the world model is observed, not proved; functions keeping state in mutable default arguments are classified by an AST scan (a new one is a broken obligation)."),
+})
+
 NOT_YET = "not yet built in this round (see DESIGN.md section 6 staging); no check is claimed"
 NOT_APPLICABLE = {
     "C20": "erf/Ei/Si/Ci/Fresnel/incomplete gamma and beta are not defined in Mathlib with computable bounds; no theorem can relate an output to the function, and an unverified reference would be testing under another name (DESIGN.md section 7)",
